@@ -86,6 +86,55 @@ impl Engine {
         self.child.id()
     }
 
+    /// CPU time (user + system, all threads) the engine process has consumed so far.
+    pub fn cpu_ms(&self) -> Option<u64> {
+        let text = std::fs::read_to_string(format!("/proc/{}/stat", self.child.id())).ok()?;
+        let rest = &text[text.rfind(')')? + 1..];
+        let f: Vec<&str> = rest.split_whitespace().collect();
+        // after the command name: state is f[0], utime f[11], stime f[12] (clock ticks, 100 Hz)
+        let ut: u64 = f.get(11)?.parse().ok()?;
+        let st: u64 = f.get(12)?.parse().ok()?;
+        Some((ut + st) * 10)
+    }
+
+    /// (threads that are running or waiting for a CPU, all threads)
+    pub fn threads_runnable(&self) -> (usize, usize) {
+        let mut run = 0;
+        let mut all = 0;
+        if let Ok(rd) = std::fs::read_dir(format!("/proc/{}/task", self.child.id())) {
+            for t in rd.flatten() {
+                if let Ok(text) = std::fs::read_to_string(t.path().join("stat")) {
+                    if let Some(i) = text.rfind(')') {
+                        all += 1;
+                        if text[i + 1..].split_whitespace().next() == Some("R") {
+                            run += 1;
+                        }
+                    }
+                }
+            }
+        }
+        (run, all)
+    }
+
+    /// Was the engine kept from running?  True when, over the last `wall`, it consumed less than
+    /// a third of one CPU although at least one of its threads wanted to run (sampled 5 times).
+    /// A wedged engine (every thread asleep) and a busy one (CPU consumed) are not starved.
+    pub fn starved(&self, cpu_before_ms: Option<u64>, wall: Duration) -> bool {
+        let (Some(a), Some(b)) = (cpu_before_ms, self.cpu_ms()) else { return false };
+        let used = b.saturating_sub(a);
+        if used * 3 >= wall.as_millis() as u64 {
+            return false;
+        }
+        let mut wanted = 0;
+        for _ in 0..5 {
+            if self.threads_runnable().0 > 0 {
+                wanted += 1;
+            }
+            std::thread::sleep(Duration::from_millis(2));
+        }
+        wanted >= 2
+    }
+
     pub fn now(&self) -> Duration {
         self.start.elapsed()
     }
